@@ -235,6 +235,7 @@ func verifC10SiteInputs(limit int, emit func(b []byte, maxArray int, site string
 				}
 				for _, val := range verifC10Boundary(f.width, len(base)-f.off-f.width) {
 					if n >= limit {
+						emit(base, ma, "sites_capped") // reported: the check fails closed on a cut product
 						return
 					}
 					m := bytes.Clone(base)
